@@ -54,7 +54,7 @@ func c11Event(rt *rapid.T) *refmodel.Event {
 		}
 		return ev
 	}
-	ev := gen.GenEvent(rt, gen.EventOpts{Types: gen.TypeOpts{MaxDepth: 3, MaxTuple: 3, MaxFixed: 4}, MaxInputs: 5, AllowIndexed: true, SelProb: 50})
+	ev := gen.GenEvent(rt, gen.EventOpts{Types: gen.TypeOpts{MaxDepth: 3, MaxTuple: 3, MaxFixed: 4}, MaxInputs: 5, AllowIndexed: true, IndexedComposite: true, SelProb: 50})
 	if len(ev.Selected()) == 0 {
 		ev.Inputs = append(ev.Inputs, &refmodel.Type{Kind: refmodel.KInt, Bits: 64, Name: "extra", Column: "c90"})
 	}
